@@ -15,7 +15,7 @@ def render (r : Rec) : String :=
   if f < 8 then s!"F{f} {a} {b} {c}"
   else if f == 8 then "L" ++ xs 150 ++ s!" {a} {b} {c}"
   else if f == 9 then "M" ++ xs 121 ++ s!"{a}"
-  else if f == 10 then "W[" ++ padLeft (a % 13) (toString b) ++ s!"]{c}"
+  else if f == 10 then "W[" ++ padLeft (a % 1100) (toString b) ++ s!"]{c}"
   else if f == 11 then s!"P%|{a}|%{b}|{c}"
   else if f == 12 then s!"S {strs.getD (a % 4) ""} {b} {c}"
   else if f == 13 then "T" ++ ((strs.getD (b % 4) "").take (a % 7)).toString ++ s!"|{c}"
